@@ -15,6 +15,7 @@
  *   ops:  rf<n> ri<n> rb<n> rB<n>   ov_read_float / ov_read 16LE signed / 8 bit unsigned / 16BE unsigned
  *         ps pp rs ts tp <tgt>      the five seeks;  PS PP RS TS TP <tgt>  their _lap variants
  *         tgt = <number> | %<permille>[+k|-k] of the handle's own pcm/raw/time total (time: k in ms)
+ *         RB RE RN<n>                macro reads: until the logical bitstream index changes / until EOF / n packets
  *         h0 h1 bi cl x<i>           ov_halfrate, ov_bitrate_instant, ov_clear, all queries with link index i
  *         XL<f> XR<f> XE<f> XF<f>    ov_crosslap(vf,twin) / (twin,vf) / twin seeked to its end first; twin = fresh seekable handle on file f
  * output: <idx> O=<openrc> R=<per-op results> F=<flags> B=<max back hop> C=<closes> L=<links after open>
@@ -166,6 +167,29 @@ int main(int argc,char **argv){
         if(rc>len)addflag(&fl,"read_overlong");
         else for(j=0;j<rc;j++)s+=buf[j];
         g_sink+=s; free(buf);
+        ol=snprintf(one,sizeof(one),"%ld",rc);
+      }else if(tok[0]=='R'&&(tok[1]=='B'||tok[1]=='E'||tok[1]=='N')){
+        /* macro reads (ov_read_float, 4096 frames per call, every returned sample touched):
+         *   RB  read until audio of ANOTHER logical bitstream index has been delivered (or EOF / error)
+         *   RE  read until EOF (0) or an error other than OV_HOLE
+         *   RN<n> n successful reads (n packets' worth), stopping early at EOF / error
+         * OV_HOLE is skipped (at most 1000 times); at most 200000 calls.  Result: the return value that ended the loop. */
+        long rc=0,calls=0,holes=0,good=0; int first_bs=-2; long want=(tok[1]=='N')?atol(tok+2):-1;
+        while(calls<200000){
+          float **pcm=NULL; int bs=-1; calls++;
+          rc=ov_read_float(&vf,&pcm,4096,&bs);
+          if(rc==OV_HOLE){ if(++holes>1000)break; continue; }
+          if(rc<=0)break;
+          { vorbis_info *vi=ov_info(&vf,-1); int c; long j; double sm=0;
+            if(rc>4096)addflag(&fl,"read_overlong");
+            if(!vi||!pcm)addflag(&fl,"read_data_without_info");
+            else for(c=0;c<vi->channels;c++)for(j=0;j<rc;j++)sm+=pcm[c][j];
+            g_sink+=sm; }
+          good++;
+          if(tok[1]=='N'&&good>=want)break;
+          if(tok[1]=='B'){ if(first_bs==-2)first_bs=bs; else if(bs!=first_bs)break; }
+        }
+        if(calls>=200000)addflag(&fl,"macro_read_call_cap");
         ol=snprintf(one,sizeof(one),"%ld",rc);
       }else if(!strncmp(tok,"ps",2)||!strncmp(tok,"pp",2)||!strncmp(tok,"PS",2)||!strncmp(tok,"PP",2)){
         double t=tgt(tok+2,(double)ov_pcm_total(&vf,-1),1); ogg_int64_t p=(ogg_int64_t)t; int rc;
